@@ -1,4 +1,6 @@
 
+val negb : bool -> bool
+
 type nat =
 | O
 | S of nat
@@ -143,6 +145,8 @@ module Z :
  sig
   val opp : z -> z
 
+  val eqb : z -> z -> bool
+
   val to_nat : z -> nat
 
   val to_N : z -> n
@@ -154,9 +158,25 @@ module Z :
 
 val nth_error : 'a1 list -> nat -> 'a1 option
 
+val rev : 'a1 list -> 'a1 list
+
+val map : ('a1 -> 'a2) -> 'a1 list -> 'a2 list
+
+val flat_map : ('a1 -> 'a2 list) -> 'a1 list -> 'a2 list
+
 val fold_left : ('a1 -> 'a2 -> 'a1) -> 'a2 list -> 'a1 -> 'a1
 
+val existsb : ('a1 -> bool) -> 'a1 list -> bool
+
 val repeat : 'a1 -> nat -> 'a1 list
+
+val split_at : z -> z list -> z list -> z list list * z list
+
+val strip_cr : z list -> z list
+
+val records : z -> bool -> z list -> z list list
+
+val unrecords : z -> z list list -> z list
 
 val invalid_key : n
 
@@ -216,10 +236,6 @@ val ideal : (n -> n) -> n -> n -> n
 
 val next : n -> n -> n
 
-val find_loop : nat -> 'a1 entry list -> n -> n -> n -> n option res
-
-val find : (n -> n) -> 'a1 ptable -> n -> n option res
-
 val foi_loop :
   nat -> 'a1 ptable -> n -> 'a1 entry -> ((bool * n) * 'a1 ptable) res
 
@@ -261,31 +277,53 @@ val double_if_needed : 'a1 -> (n -> n) -> 'a1 auto -> 'a1 auto res
 val auto_find_or_insert :
   'a1 -> (n -> n) -> 'a1 auto -> 'a1 entry -> ((bool * n) * 'a1 auto) res
 
-val auto_insert :
-  'a1 -> (n -> n) -> 'a1 auto -> 'a1 entry -> (n * 'a1 auto) res
+val dedupe_has_reserved_guard : bool
 
-val auto_find : (n -> n) -> 'a1 auto -> n -> n option res
+val dedupe_reserved_key : n
 
-val value_at : 'a1 auto -> n -> 'a1 option
+type dtable = unit auto
 
-val auto_update :
-  (n -> n) -> 'a1 auto -> n -> 'a1 -> (n option * 'a1 auto) res
+val idhash : n -> n
 
-type 'v op =
-| OpFindOrInsert of n * 'v
-| OpInsert of n * 'v
-| OpFind of n
-| OpUpdate of n * 'v
+type dstate = { d_tab : dtable; d_seen_zero : bool }
 
-type 'v answer =
-| AFoundOrInserted of bool * n * 'v option
-| AInserted of n
-| AFind of (n * 'v option) option
-| AUpdate of n option
+val dedupe_init : dstate
 
-val step :
-  'a1 -> (n -> n) -> 'a1 auto -> 'a1 op -> ('a1 answer * 'a1 auto) res
+val dedupe_pass : dstate -> n -> (bool * dstate) res
 
-val run :
-  'a1 -> (n -> n) -> 'a1 auto -> 'a1 op list -> ('a1 answer list * 'a1 auto)
-  res
+val filter_loop : ('a1 -> n) -> dstate -> 'a1 list -> 'a1 list res
+
+val dedupe : ('a1 -> n) -> 'a1 list -> 'a1 list res
+
+type pstatus =
+| PDone
+| PUnbalanced
+| PAbort
+
+val par_loop :
+  ('a1 -> n) -> ('a1 -> n) -> dstate -> dstate -> 'a1 list -> 'a1 list ->
+  (pstatus * ('a1 * 'a1) list) res
+
+val dedupe_par :
+  ('a1 -> n) -> ('a1 -> n) -> 'a1 list -> 'a1 list -> (pstatus * ('a1 * 'a1)
+  list) res
+
+val mem : n -> n list -> bool
+
+val first_occ_from : ('a1 -> n) -> n list -> 'a1 list -> 'a1 list
+
+val first_occ : ('a1 -> n) -> 'a1 list -> 'a1 list
+
+val par_spec_from :
+  ('a1 -> n) -> ('a1 -> n) -> n list -> n list -> ('a1 * 'a1) list ->
+  ('a1 * 'a1) list
+
+val par_spec :
+  ('a1 -> n) -> ('a1 -> n) -> ('a1 * 'a1) list -> ('a1 * 'a1) list
+
+val newline : z
+
+val dedupe_tool : (z list -> n) -> z list -> z list res
+
+val dedupe_par_tool :
+  (z list -> n) -> z list -> z list -> ((pstatus * z list) * z list) res
